@@ -18,6 +18,10 @@ let mq_dump () =
   print_newline ()
 let hq_dump () = Printf.printf "hp n=%d first=%d last=%d lib=%d\n" (iz !hq.hcnt) (iz !hq.hfirst) (iz !hq.hlast) (iz !hq.hlib)
 let faulted = ref false
+let sg = ref { c_k = zi 12; c_w = zi 8; c_t1 = zi 15; c_t2 = zi 10; c_t3 = zi 20; c_interrog = false; c_hret = false; c_burst = zi 0;
+               c_bsize = zi 0; c_term = false; c_reqret = true }
+let sc = ref (new_conn !sg (zi 0) (zi 0))
+let sq = ref (hp_new (zi 2))
 let () =
   iter_lines (fun line ->
     match words line with
@@ -66,5 +70,36 @@ let () =
          | "reset" -> hq := hp_reset !hq
          | _ -> ());
         hq_dump ()
+    | "sch" :: sub :: rest ->
+        (* the scheduler with the literal ring (Cs104/SchedRing.v): sendASDUInternal / sendWaitingASDUs on one connection *)
+        let x = (match rest with a :: _ -> int_of_string a | [] -> 0) in
+        let y = (match rest with _ :: b :: _ -> int_of_string b | _ -> 0) in
+        let o = ref [] in
+        (match sub with
+         | "new" ->
+             sg := { c_k = zi x; c_w = zi 8; c_t1 = zi 15; c_t2 = zi 10; c_t3 = zi 20; c_interrog = false; c_hret = false; c_burst = zi 0;
+                     c_bsize = zi 0; c_term = false; c_reqret = true };
+             sc := { (new_conn !sg (zi 0) (zi 0)) with st = zi 1; running = true };
+             sq := hp_new (zi y); aid := 0
+         | "resp" ->
+             (match send_asdu_internal_r !sg (zi 0) !sc !sq (mk_asdu x !aid) with
+              | Ok (((c', q'), r), o') -> sc := c'; sq := q'; o := o'; Printf.printf "schresp %d\n" (b2i r)
+              | Fault w -> Printf.printf "FAULT schresp %d\n" (iz w));
+             incr aid
+         | "drain" ->
+             (match send_waiting_r !sg (zi 0) server_init !sc !sq with
+              | Ok (((_, c'), q'), o') -> sc := c'; sq := q'; o := o'; print_endline "schdrain"
+              | Fault w -> Printf.printf "FAULT schdrain %d\n" (iz w))
+         | "ack" ->
+             let rec drop n l = if n <= 0 then l else (match l with [] -> [] | _ :: r -> drop (n - 1) r) in
+             sc := { !sc with kbuf = drop x !sc.kbuf }
+         | "wmode" -> sc := { !sc with wmode = zi x }
+         | "stop" -> sc := { !sc with st = zi 0 }
+         | _ -> ());
+        print_string "sch tx=";
+        List.iter (fun ob -> match ob with
+                             | OTx (_, b) -> if List.length b >= 14 then Printf.printf "%d," ((iz (List.nth b 12)) lor ((iz (List.nth b 13)) lsl 8)) else print_string "u,"
+                             | _ -> ()) !o;
+        Printf.printf " k=%d run=%d hp n=%d first=%d last=%d lib=%d\n" (List.length !sc.kbuf) (b2i !sc.running) (iz !sq.hcnt) (iz !sq.hfirst) (iz !sq.hlast) (iz !sq.hlib)
     | [] -> ()
     | _ -> ())
